@@ -202,6 +202,13 @@ def write_evidence(prop, tier, level, coverage, wall_s, violations, assumptions=
     os.replace(tmp, os.path.join(EVIDENCE, prop + ".json"))
 
 
+def clear_replays(prop):
+    if os.path.isdir(REPLAY):
+        for f in os.listdir(REPLAY):
+            if f.startswith(prop + "-"):
+                os.remove(os.path.join(REPLAY, f))
+
+
 def save_replay(prop, name, obj):
     os.makedirs(REPLAY, exist_ok=True)
     path = os.path.join(REPLAY, "%s-%s.json" % (prop, name))
